@@ -39,16 +39,27 @@ type I1 interface {
 	inI1()
 }
 
+// I2 is a wider interface than I0 (its method set is a superset), implemented
+// by T0 only: I2 implements I0, so a value produced under an I2 label can
+// feed an I0 parameter through an interface-to-interface link.
+type I2 interface {
+	Token() int
+	inI0()
+	inI2()
+}
+
 func (T0) inI0() {}
 func (T1) inI0() {}
 func (T1) inI1() {}
 func (T2) inI1() {}
+func (T0) inI2() {}
 
 const (
 	NumConcrete = 6
 	TypeI0      = 6
 	TypeI1      = 7
-	NumTypes    = 8
+	TypeI2      = 8
+	NumTypes    = 9
 )
 
 // Types is the universe, indexed by type number.
@@ -56,6 +67,7 @@ var Types = []reflect.Type{
 	reflect.TypeOf(T0{}), reflect.TypeOf(T1{}), reflect.TypeOf(T2{}),
 	reflect.TypeOf(T3{}), reflect.TypeOf(t4{}), reflect.TypeOf(t5{}),
 	reflect.TypeOf((*I0)(nil)).Elem(), reflect.TypeOf((*I1)(nil)).Elem(),
+	reflect.TypeOf((*I2)(nil)).Elem(),
 }
 
 var typeIndex = func() map[reflect.Type]int {
